@@ -40,7 +40,7 @@ CHECKS = {
     "C06": dict(
         level="model_checking",
         technique="TLA+ configuration-level specification TLCPCfg (policy verdict per configuration, enumerated by TLC) replayed as real handshakes; TLA+ flight specification TLCPFlight evaluated by TLC on the message sequence recorded from every run; TLA+ executable transcription of the GM/T 0024 key schedule and record protection (RecordWire over SM3/HMAC/PRF/SM4/GCM) decoding captured GMSSL wire bytes + key log in TLC; Go standard library crypto/tls as independent TLS 1.0-1.2 peer",
-        text="TLC enumerates 8.7k configurations (server mode x client kind x suite lists and preference x ClientAuth x client certificate absent/trusted/untrusted x certificate source x tickets) with the verdict the policy demands; each chosen configuration (all in thorough) is a real gmtls client/server handshake whose outcome, version, suite, peer certificates and exported keying material on both ends are compared with the specification, a subset also moves 260 kB in odd fragment sizes; captured GMSSL sessions of both suites are decoded by TLC from the wire and the key log alone (key block, first protected records, both Finished verify_data, application data); every TLS role/version/suite is run against crypto/tls; the handshake messages each run shows on the wire (plaintext messages, ChangeCipherSpec, protected records, alerts, per direction and merged) are checked by TLC against TLCPFlight: a completed handshake shows exactly the standard flights for what was negotiated and configured (ServerKeyExchange, CertificateRequest, client Certificate / CertificateVerify, NewSessionTicket iff offered and enabled), an aborted one a prefix of them.",
+        text="TLC enumerates 8.7k configurations (server mode x client kind x suite lists and preference x ClientAuth x client certificate absent/trusted/untrusted x certificate source x tickets) with the verdict the policy demands; each chosen configuration (all in thorough) is a real gmtls client/server handshake whose outcome, version, suite, peer certificates and exported keying material on both ends are compared with the specification, a subset also moves 260 kB in odd fragment sizes; captured GMSSL sessions of both suites are decoded by TLC from the wire and the key log alone (key block, first protected records, both Finished verify_data, application data); every TLS role/version/suite is run against crypto/tls; the handshake messages each run shows on the wire (plaintext messages, ChangeCipherSpec, protected records, alerts, per direction and merged) are checked by TLC against TLCPFlight: a completed handshake shows exactly the standard flights for what was negotiated and configured (ServerKeyExchange, CertificateRequest, client Certificate / CertificateVerify, NewSessionTicket iff offered and enabled), an aborted one a prefix of them. On a second connection of each data configuration the reader's transport delivers 3 / 400 / 2 / 5000 / 1 ... bytes per Read and lets every other Read end in an expired deadline; the retrying reader must receive exactly the stream, and the last message before Close must arrive before the end of the stream.",
         note="Trusts TLC, the fixture PKI, the interposer. The independent GM/T 0024 implementation is the TLA+ specification itself (none is installed); ECDHE-SM2 suites are specified as not negotiable (no server implementation). Alert codes and which side errs first are not compared.",
         ref="DESIGN.md section 5 C06"),
     "C07": dict(
@@ -52,7 +52,7 @@ CHECKS = {
     "C08": dict(
         level="model_checking",
         technique="TLA+ symbolic model TLCPAdv of the authenticated handshake with an attacker - GM/T 0024 ECC, TLS RSA key transport and TLS ECDHE_RSA, CBC and AEAD suite each, all five client-auth policies (Authentication, Agreement, LaxPoliciesAccept checked by TLC); every attacker scenario realised against real endpoints through generated SM2 and RSA PKI, wrong private keys, verif peer fault points (GMSSL) or the same deviation made on the wire (TLS), and a field-aware man in the middle",
-        text="TLC checks Authentication (client completes only with a peer holding both certified keys and proving it in this session; server with verified client auth only with the key holder over this transcript) and Agreement on the symbolic model for every single-deviation scenario under six protocol combinations and five client-auth policies (7 certificate kinds per slot, wrong key per slot, SKE omitted/replayed/mis-signed/over another encryption certificate, client certificate kinds, wrong client key, replayed CertificateVerify, 13 field rewrites, a changed byte at 8 (64 thorough) positions of each plaintext handshake message, verification off); each scenario runs against the real client and server and the set of endpoints that complete must be the model's.",
+        text="TLC checks Authentication (client completes only with a peer holding both certified keys and proving it in this session; server with verified client auth only with the key holder over this transcript) and Agreement on the symbolic model for every single-deviation scenario under six protocol combinations and five client-auth policies (7 certificate kinds per slot, wrong key per slot, SKE omitted/replayed/mis-signed/over another encryption certificate, client certificate kinds, wrong client key, replayed CertificateVerify, 13 field rewrites, a changed byte at 8 (64 thorough) positions of each plaintext handshake message, verification off; both endpoints on a configured clock ten days ahead with certificates valid now / then / both in every slot - ClockHonoured demands completion for what is valid at the configured time; a VerifyPeerCertificate callback that refuses, on either side, under every policy); each scenario runs against the real client and server and the set of endpoints that complete must be the model's.",
         note="Symbolic cryptography (signatures unforgeable, encryption opaque). TLS scenarios use RSA certificates (ECDSA server certificates are not exercised). One deviation per scenario.",
         ref="DESIGN.md section 5 C08"),
     "C09": dict(
@@ -82,19 +82,19 @@ CHECKS = {
     "C13": dict(
         level="exploration",
         technique="TLA+ transcription of the GM/T 0003.3 key exchange (x-bar truncation, t, V, KDF, S1/S2 with fixed 32-byte coordinates) over ECurve/BigNat/SM3 evaluated by TLC as a table spec; replayed into KeyExchangeA/KeyExchangeB",
-        text="TLC computes K, S1, S2 for both roles (asserting on the specification that initiator and responder reach the same point) over random and boundary keys, identities of 0..8191 bytes, key lengths 1..1024, and - found by TLC search - long-term, ephemeral and shared points whose coordinates have leading zero bytes, sparse scalars, keys chosen so that t = 0 mod n (both parties must fail); both real parties must return exactly these values; a peer ephemeral value off the curve, at infinity or outside [0, p) must give an error; a sweep of 1500 (6000) exchanges with key lengths 1 and 2 on the same key objects, whose errors, disagreements, all-zero keys and last exchange are judged against the table as observed.",
+        text="TLC computes K, S1, S2 for both roles (asserting on the specification that initiator and responder reach the same point) over random and boundary keys, identities of 0..8191 bytes, key lengths 1..1024, and - found by TLC search - long-term, ephemeral and shared points whose coordinates have leading zero bytes, sparse scalars, keys chosen so that t = 0 mod n (both parties must fail); both real parties must return exactly these values; a peer ephemeral value off the curve, at infinity or outside [0, p) must give an error; a sweep of 1500 (6000) exchanges with key lengths 1 and 2 on the same key objects, whose errors, disagreements, all-zero keys and last exchange are judged against the table as observed; one-sided exchanges (both roles) in which the peer's static and ephemeral values are points no known scalar produces: an ephemeral x in [n, p), the static key (0, sqrt b), an ephemeral x of 15 / 16 / 17 bytes with bit 127 set or clear.",
         note="Exploration over enumerated cases on the real curve only (keyExchange is hard-wired to P256Sm2). Trusts BigInteger, SM3.tla.",
         ref="DESIGN.md section 5 C13"),
     "C14": dict(
         level="exploration",
         technique="TLA+ spec Codec (integer serialisation conventions as writer/reader pairs; round trip checked by TLC over all model integers, with the repaired minimal-hex deviation as a switch the model must reject); table of (serialiser, value shape, password class) cases replayed on real keys, signatures and ciphertexts realising each shape; loader table",
-        text="For hex private/public keys, compressed points, PKIX and PKCS#8 PEM (no / empty / ASCII / UTF-8 / 1 KiB password), ASN.1 signatures and ASN.1 ciphertexts, values with 1 (thorough: 2) leading zero bytes, a leading zero nibble or the high bit set in d, x, y, r, s or C1 are written and read back and must be unchanged; password-protected keys must not decode under five wrong-password variants; X509KeyPair, GMX509KeyPairs(Single) and the three file loaders must accept a matching certificate/key and reject another key or swapped sign/enc keys.",
+        text="For hex private/public keys, compressed points, PKIX and PKCS#8 PEM (no / empty / ASCII / UTF-8 / 1 KiB password), ASN.1 signatures and ASN.1 ciphertexts, values with 1 (thorough: 2) leading zero bytes, a leading zero nibble or the high bit set in d, x, y, r, s or C1 are written and read back and must be unchanged; password-protected keys must not decode under five wrong-password variants; X509KeyPair, GMX509KeyPairs(Single) and the three file loaders must accept a matching certificate/key and reject another key or swapped sign/enc keys; password-protected PKCS#8 of keys whose DER ends in each of the 16 values a pad byte can take, for private keys of 30, 31 and 32 bytes.",
         note="Exploration over shapes, not over all keys. Keys with short public coordinates are found by searching small private keys with the library's own scalar multiplication (their shape is then checked on the bytes).",
         ref="DESIGN.md section 5 C14"),
     "C15": dict(
         level="fault_enumeration",
         technique="TLA+ spec TLCPPeer (endpoint flight grammar as a state machine + one peer deviation), every (role, position, deviation) explored by TLC to its verdict; each case realised by a message-level interposer between the endpoint under test and an honest gmtls peer, by peer fault points, or by hand-written scripted peers with their own transcript, key schedule and record protection (a GMSSL client, GMSSL / TLS servers, a TLS server that renegotiates)",
-        text="TLC enumerates 2.3k cases over 6 endpoint roles (GM client, GM-only server, auto-switch server under GM and TLS, TLS client, TLS server) x client auth on/off x every position of the plaintext flight x {drop, duplicate, swap, inject or substitute each of 16 message kinds incl. RSA certificates where SM2 ones belong, 9 truncations / length-field perturbations, ChangeCipherSpec, application data, warning and fatal alerts, end of stream, ClientHello rewritten to 12 versions / 6 suite lists / no null compression}; the real endpoint must return an error, never report completion, never panic, and return once its input has ended; consistent deviations by scripted peers (CertificateVerify omitted or doubled, Finished before / without ChangeCipherSpec or with a wrong length, application data before Finished, another curve, a second handshake without ChangeCipherSpec); benign variations (re-fragmentation, a warning alert, an honest renegotiation) must still complete.",
+        text="TLC enumerates 2.3k cases over 6 endpoint roles (GM client, GM-only server, auto-switch server under GM and TLS, TLS client, TLS server) x client auth on/off x every position of the plaintext flight x {drop, duplicate, swap, inject or substitute each of 16 message kinds incl. RSA certificates where SM2 ones belong, 9 truncations / length-field perturbations, ChangeCipherSpec, application data, warning and fatal alerts, end of stream, ClientHello rewritten to 12 versions / 6 suite lists / no null compression, one of 12 hello extensions (either direction) replaced by 9 content shapes with consistent outer lengths}; the real endpoint must return an error, never report completion, never panic, and return once its input has ended; consistent deviations by scripted peers (CertificateVerify omitted or doubled, Finished before / without ChangeCipherSpec or with a wrong length, application data before Finished, another curve, a second handshake without ChangeCipherSpec); benign variations (re-fragmentation, a warning alert, an honest renegotiation) must still complete.",
         note="Deviations are single ops applied to an otherwise honest flight (no keys are needed: the plaintext phase); encrypted-phase deviations are made by the scripted peers only (wrong Finished values and records after CCS are C07/C08). Trusts the interposer's handshake-message reassembly. Hang detection: input ended after 0.6 s of silence, then 3 s to return.",
         ref="DESIGN.md section 5 C15"),
     "C16": dict(
@@ -106,13 +106,13 @@ CHECKS = {
     "C17": dict(
         level="model_checking",
         technique="TLA+ spec Containers (symbolic algebra of PKCS#7 enveloped-data, signed-data and PKCS#12 objects; state machine make -> one adversary change -> use; the clauses of the statement are invariants checked by TLC over every producer choice, adversary change and use); every done state replayed on the real x509 / pkcs12 packages; single-byte corruption sweep with the statement's 'exactly when' as oracle",
-        text="TLC explores 7.9k (thorough 36k) states: envelopes {SM2 in both ciphertext orderings, RSA} x {DES-CBC, AES-128-GCM} x recipient lists over three holders whose certificates share issuers and serial numbers pairwise x content lengths x {untouched, body changed, wrapped key changed, recipient dropped, reordered} x every (certificate holder, key holder, API, ordering) over four holders; signed data {SM2 with both SM3 identifiers, RSA incl. the package's own AddSigner output} x signed attributes x detached x signer x {content, digest attribute, other attribute, signature, re-signed by another key, certificate swapped} x supplied content; PKCS#12 {empty, ASCII, UTF-8, long, BMP-edge, invalid UTF-8 password} x {SM2, RSA key} x 0..2 CA certificates x {untouched, byte changed, MAC stripped} x right + 8 wrong-password variants x {DecodeAll, Decode, ToPEM}. Each case runs on the real packages and must give exactly the content / verified / key and certificates, or an error. Every (quick: every 5th) byte of 8 signed-data objects, 2 GCM envelopes and 4 bundles (with and without macData) is set to 4 values: what still verifies must carry the genuine content, attributes, signature and signer key; what still decrypts or decodes must be the original.",
+        text="TLC explores 7.9k (thorough 36k) states: envelopes {SM2 in both ciphertext orderings, RSA} x {DES-CBC, AES-128-GCM} x recipient lists over three holders whose certificates share issuers and serial numbers pairwise x content lengths x {untouched, body changed, wrapped key changed, recipient dropped, reordered} x every (certificate holder, key holder, API, ordering) over four holders; signed data {SM2 with both SM3 identifiers, RSA incl. the package's own AddSigner output} x signed attributes x detached x signer x {content, digest attribute, other attribute, signature, re-signed by another key, certificate swapped} x supplied content; PKCS#12 {empty, ASCII, UTF-8, long, BMP-edge, invalid UTF-8 password} x {SM2, RSA key} x 0..2 CA certificates x {untouched, byte changed, MAC stripped} x right + 10 wrong-password variants x {DecodeAll, Decode, ToPEM, StdVerify = a reader of the integrity protection written from RFC 7292 alone (BMPString, key derivation, HMAC-SHA-1)}. Each case runs on the real packages and must give exactly the content / verified / key and certificates, or an error. Every (quick: every 5th) byte of 8 signed-data objects, 2 GCM envelopes and 4 bundles (with and without macData) is set to 4 values: what still verifies must carry the genuine content, attributes, signature and signer key; what still decrypts or decodes must be the original.",
         note="Symbolic cryptography in the model. SM2 signers and attribute-less objects are built by the harness's mirror of the ASN.1 structures because the package cannot produce them. DES-CBC content changed in transit is left unspecified (no integrity in the format). Verify does not validate certificate chains, so 'certified key' means the key of the embedded certificate named by issuer and serial.",
         ref="DESIGN.md section 5 C17"),
     "C18": dict(
         level="fault_enumeration",
         technique="TLA+ spec TLV (total BER/DER tag-length-value reader as a state machine with a step counter; termination within 4*len+4 steps, in-bounds indexing and absence of stuck states checked by TLC for every string up to a length bound over the critical-byte alphabet); TLC extracts the TLV nodes of a library-produced corpus, which generate the structural mutation catalogue; every mutant and every TLC-enumerated short string is run through the real decoders under recover, a deadline and an allocation counter",
-        text="35 corpus items (certificate, request, CRL, enveloped and signed PKCS#7, PKCS#8 plain and encrypted, PKCS#1, PKIX key, PEM keys and certificates plain and encrypted, SM4 key PEM, hex keys, PKCS#12, raw and ASN.1 SM2 ciphertexts, signature, compressed point, every GMSSL handshake message kind, session ticket and session state) through 60 decoder entry points: every truncation, seven substitutions per byte, five length rewrites and eleven tag swaps per TLV node, nesting to 10^4 (definite and indefinite), empty and random strings, and all strings up to 4 bytes over 12 critical byte values; each call must return within 3 s without panicking and allocate no more than 256 x input + 8 MiB, except where a mutated password-stretching iteration count is the cause (quick tier samples byte positions of long items).",
+        text="35 corpus items (certificate, request, CRL, enveloped and signed PKCS#7, PKCS#8 plain and encrypted, PKCS#1, PKIX key, PEM keys and certificates plain and encrypted, SM4 key PEM, hex keys, PKCS#12, raw and ASN.1 SM2 ciphertexts, signature, compressed point, every GMSSL handshake message kind, session ticket and session state) through 60 decoder entry points: every truncation, seven substitutions per byte, five length rewrites and eleven tag swaps per TLV node, nesting to 10^4 (definite and indefinite), overlapping and well-terminated indefinite nesting of increasing depth, elements inserted among the components of every constructed node, every primitive string re-encoded in 18 constructed (BER-segmented) forms, empty and random strings, and all strings up to 4 bytes over 12 critical byte values; each call must return within 3 s without panicking and allocate no more than 256 x input + 8 MiB, except where a mutated password-stretching iteration count is the cause (quick tier samples byte positions of long items).",
         note="Fault enumeration over the catalogue of the quantifier, not all byte strings. Trusts recover(), the wall clock and runtime/metrics. A fatal runtime error (stack exhaustion) would kill the harness and is reported as an infrastructure failure with the input named, not as a verdict.",
         ref="DESIGN.md section 5 C18"),
     "C19": dict(
@@ -124,7 +124,7 @@ CHECKS = {
     "C20": dict(
         level="model_checking",
         technique="TLA+ specs ConcSm4 (block function as four steps on scratch storage; TLC refutes 'as if alone' for object-owned scratch, proves it for call-owned scratch and enumerates every interleaving, each replayed deterministically through verif gates on one real cipher object), ConcConn / ConcConnMC (Write / Read / Close / CloseWrite of one connection as atomic operations on two byte streams, consequences model-checked) and ConcConnTrace (histories of real connections, invocation and response stamped by one counter, validated by TLC searching the linearisation points), ConcConfig / ConcConfigMC / ConcConfigTrace (the ticket-key list of one shared server Config: atomic rotation, a handshake's Open and Seal instants; histories of real GMSSL and TLS servers under continuous re-installation of the keys validated the same way); stress drivers for every shared object of the statement whose results are compared with the sequential ones, all run under the Go race detector as the sensor of the no-data-race clause",
-        text="All 70 (thorough: 34 650) interleavings of 2 (3) concurrent Encrypt/Decrypt calls x 4 steps on one sm4 cipher are executed through the gates and each call must return its sequential block. Drivers with 2..32 goroutines: package-level sign / verify / encrypt / decrypt / SM3 / SM4-ECB / certificate parse / chain verification on separate data; one cipher.Block shared raw and under CBC; one hash constructor under HMAC; one root + intermediate CertPool; PKCS#7 parse and envelope; first use of the curve in a fresh process; SetIV with the CBC helper (result must be the CBC encryption under one of the installed IVs); GMSSL and TLS 1.2 handshakes on one server Config with session tickets, key rotation every 3 ms and a shared client session cache. Connection histories: GMSSL (CBC) and TLS 1.2 (GCM) connections over loopback TCP with 1..4 writers and 1..2 readers on one end, 1..3 writers on the other, self-describing messages of 64 B..40 kB, Close after or during the traffic, or a half close (CloseWrite) in the middle while the peer keeps writing; every history must be explained by atomic operations (contiguous payloads, per-writer order, no successful Write after Close, errors only once an end has closed). Config histories: 2..7 clients reconnect with their latest ticket during 3..19 key rotations; resumption, re-issue and the key of every new ticket must be explained by an atomic order of rotations and of each handshake's two instants. Any race report whose top frames are in the library is a violation.",
+        text="All 70 (thorough: 34 650) interleavings of 2 (3) concurrent Encrypt/Decrypt calls x 4 steps on one sm4 cipher are executed through the gates and each call must return its sequential block. Drivers with 2..32 goroutines: package-level sign / verify / encrypt / decrypt / SM3 / SM4-ECB / certificate parse / chain verification on separate data; one cipher.Block shared raw and under CBC; one hash constructor under HMAC; one root + intermediate CertPool; PKCS#7 parse and envelope; first use of the curve in a fresh process; SetIV with the CBC helper (result must be the CBC encryption under one of the installed IVs); GMSSL and TLS 1.2 handshakes on one server Config with session tickets, key rotation every 3 ms and a shared client session cache. Connection histories: GMSSL (CBC) and TLS 1.2 (GCM) connections over loopback TCP with 1..4 writers and 1..2 readers on one end, 1..3 writers on the other, self-describing messages of 64 B..40 kB, Close after or during the traffic, or a half close (CloseWrite) in the middle while the peer keeps writing, or a forged record reaching one end's reader while its Writes are blocked in the transport (the alert it answers with must be one atomic operation of the sending half); every history must be explained by atomic operations (contiguous payloads, per-writer order, no successful Write after Close, errors only once an end has closed). Config histories: 2..7 clients reconnect with their latest ticket during 3..19 key rotations; resumption, re-issue and the key of every new ticket must be explained by an atomic order of rotations and of each handshake's two instants. Any race report whose top frames are in the library is a violation.",
         note="Exhaustive interleaving only for the sm4 object (gated); the connection and Config are explored by stress under the race detector plus history validation, which sees what the scheduler happens to produce. A failed Write is modelled as non-atomic (its records may be read before the close that fails it). Read after the endpoint's own Close may still return bytes that had arrived. Races in the harness itself abort the check as an infrastructure error.",
         ref="DESIGN.md section 5 C20"),
 }
